@@ -839,6 +839,73 @@ func RunC16(ctx *core.Ctx, r *core.Rng) {
 			ctx.Sample(map[string]any{"case": rc.String()})
 		}
 	}
+	if NewIndexInst != nil && r.Chance(0.03) {
+		runC16OnePreemption(ctx, r)
+	}
+}
+
+// runC16OnePreemption: small-scope exhaustive component of the schedule search.
+// For a small case (2-3 callers, <= 4 operations each) EVERY schedule with exactly
+// one pre-emption is executed: caller a runs k scheduling points, then caller b
+// runs to completion, then the rest in order -- for every a, every k and every b.
+func runC16OnePreemption(ctx *core.Ctx, r *core.Rng) {
+	rc := genRegionsCase(r, "stmt")
+	if len(rc.Tasks) < 2 {
+		rc.Tasks = append(rc.Tasks, append([]RegOp(nil), rc.Tasks[0]...))
+	}
+	if len(rc.Tasks) > 3 {
+		rc.Tasks = rc.Tasks[:3]
+	}
+	for t := range rc.Tasks {
+		if len(rc.Tasks[t]) > 4 {
+			rc.Tasks[t] = rc.Tasks[t][:4]
+		}
+	}
+	if len(rc.Starts) > 40 {
+		rc.Starts, rc.Ends = rc.Starts[:40], rc.Ends[:40]
+	}
+	// how many scheduling points each caller has when it runs alone first
+	points := make([]int, len(rc.Tasks))
+	for a := range rc.Tasks {
+		rc.Schedule = []int{a}
+		c := &Case{Clause: "C16", Regions: rc}
+		_, tr := execC16Trace(c, nil)
+		for _, t := range tr.trace {
+			if t != a {
+				break
+			}
+			points[a]++
+		}
+	}
+	n := 0
+	for a := range rc.Tasks {
+		for k := 1; k < points[a] && k <= 150; k++ {
+			for b := range rc.Tasks {
+				if b == a {
+					continue
+				}
+				sch := make([]int, k+1)
+				for i := 0; i < k; i++ {
+					sch[i] = a
+				}
+				sch[k] = b
+				d := &Case{Clause: "C16", Regions: &RegionsCase{Starts: rc.Starts, Ends: rc.Ends, Tasks: rc.Tasks, Gran: "stmt",
+					Strategy: "one-preemption", Schedule: sch, StartsSpare: rc.StartsSpare, EndsSpare: rc.EndsSpare}}
+				v, tr := execC16Trace(d, nil)
+				ctx.Eval()
+				n++
+				ctx.Seen(tr.schedHash ^ core.HashString(fmt.Sprint(rc.Starts, rc.Ends, rc.Tasks)))
+				if v != nil {
+					d.Regions.Schedule = tr.trace
+					ctx.EvS(v.Key)
+					report(ctx, d, v)
+				}
+			}
+		}
+	}
+	ctx.EvU(uint64(n))
+	ctx.Stats.Inc("exhaustive/cases_with_every_single_preemption_schedule")
+	ctx.Stats.Add("exhaustive/single_preemption_schedules_executed", int64(n))
 }
 
 // runC16Sweep: all sets of up to 4 intervals over coordinates 0..3 (69 905
